@@ -20,7 +20,9 @@ current view (size, focus) and compared:
   content-differs   same cols/rows and the same rows of (attr, charset, bytes) runs (adjacent runs with
                     equal attr+cs merged, empty runs dropped: the segmentation of a row is not content)
   cursor-differs    canvas.cursor equal
-  rows-differ       rows(size, focus) / keypress / mouse_event return values equal
+  rows-differ       rows(size, focus) equal (sub-clause render-disagrees-with-rows:<Class> when the fresh
+                    world's own render() and rows() disagree: C01's subject showing through the cache)
+  result-differs    keypress / mouse_event / selectable / pack return values equal
   one-world-raises  an op or render that raises in exactly one world
   cached-canvas-modified   every canvas A handed out still has the content/cursor snapshotted when it
                     was handed out (checked after every op, at every drop and at the end)
@@ -455,7 +457,7 @@ def mutators(w, mode, ser, enc, build):
             cw, (t, n) = cont[i]
             n2 = 1 + (n + c) % 3 if t == WEIGHT else 1 + (n + c) % 4
             cont[i] = (cw, w.options(t, n2))
-            return f"[{i}] {t.value} {n} -> {n2}"
+            return f"[{i}] {t!s} {n} -> {n2}"
 
         add("contents.insert", insert)
         add("contents.delete", delete)
@@ -500,7 +502,7 @@ def mutators(w, mode, ser, enc, build):
             cw, (t, n, box) = cont[i]
             n2 = 1 + (int(n) + c) % 3 if t == WEIGHT else 1 + (n + c) % 8
             cont[i] = (cw, w.options(t, n2, box))
-            return f"[{i}] {t.value} {n} -> {n2}"
+            return f"[{i}] {t!s} {n} -> {n2}"
 
         add("contents.insert", insert)
         add("contents.delete", delete)
@@ -790,6 +792,23 @@ class Run:
         same = _first_diff(sa, s) is None and sa[3] == s[3]
         return " [same tree rendered without the cache: " + ("equal to its cached rendering -> the twins' states diverged earlier]" if same else "differs too -> stale canvas]")
 
+    def rows_differ(self, what, pick, size, focus, ra, rb):
+        """rows() answered from a cached canvas differs from rows() computed afresh.  If the fresh world's
+        own render has a different number of rows than its rows() reports, the disagreement is between
+        render() and rows() (C01's subject) and merely shows through the cache: separate clause."""
+        w = pick(self.B)
+        clause = "rows-differ"
+        extra = ""
+        try:
+            with self.uncached:
+                rr = w.render(size, focus).rows()
+            if rr != rb:
+                clause = f"rows-differ:render-disagrees-with-rows:{type(w).__name__}"
+                extra = f" (without any cache render({size}, {focus}) has {rr} rows where rows() reports {rb})"
+        except Exception:  # noqa: BLE001
+            pass
+        raise Violation(clause, self.msg(f"{what}.rows({size}, {focus}): cached {ra} != fresh {rb}{extra}"))
+
     def check_held(self, when):
         for canv, s0, desc in self.held:
             s1 = snap(canv)
@@ -845,7 +864,9 @@ class Run:
         if kind == "drop":
             self.check_held(f"drop at step {ser}")
             del self.held[:]
-            gc.collect()
+            # canvases hold no reference cycles: they die by reference count when dropped; the young
+            # generations are collected as well (a full collection costs 0.3 s under Hypothesis' heap)
+            gc.collect(1)
             self.rendered.clear()
             self.trace.append(f"{ser}:drop+gc")
             _count("op:drop")
@@ -873,7 +894,7 @@ class Run:
             else:
                 ra, rb = self.both(f"rows of node {n}", lambda world: pick(world).rows(size, focus))
                 if ra != rb:
-                    raise Violation("rows-differ", self.msg(f"node {n} ({name}).rows({size}, {focus}): cached {ra} != fresh {rb}"))
+                    self.rows_differ(f"node {n} ({name})", pick, size, focus, ra, rb)
                 _count("op:rows")
             return True
         si, focus = self.view
@@ -881,14 +902,14 @@ class Run:
         if kind == "key":
             sa, sb = self.both("selectable()", lambda world: world.root.selectable())
             if sa != sb:
-                raise Violation("rows-differ", self.msg(f"root.selectable(): cached {sa} != fresh {sb}"))
+                raise Violation("result-differs", self.msg(f"root.selectable(): cached {sa} != fresh {sb}"))
             if not sa:
                 return False
             key = op[1]
             self.trace.append(f"{ser}:keypress {size} {key!r}")
             ra, rb = self.both(f"keypress({size}, {key!r})", lambda world: world.root.keypress(size, key))
             if ra != rb:
-                raise Violation("rows-differ", self.msg(f"keypress({size}, {key!r}) returned {ra!r} (cached) != {rb!r} (fresh)"))
+                raise Violation("result-differs", self.msg(f"keypress({size}, {key!r}) returned {ra!r} (cached) != {rb!r} (fresh)"))
             _count("op:key-handled" if ra is None else "op:key-unhandled")
             return True
         if kind == "mouse":
@@ -898,12 +919,12 @@ class Run:
                 cols = size[0]
                 ra, rb = self.both(f"rows({size})", lambda world: world.root.rows(size, True))
                 if ra != rb:
-                    raise Violation("rows-differ", self.msg(f"root.rows({size}, True): cached {ra} != fresh {rb}"))
+                    self.rows_differ("root", lambda world: world.root, size, True, ra, rb)
                 rows = ra
             else:
                 ra, rb = self.both("pack(())", lambda world: tuple(world.root.pack((), True)))
                 if ra != rb:
-                    raise Violation("rows-differ", self.msg(f"root.pack((), True): cached {ra} != fresh {rb}"))
+                    raise Violation("result-differs", self.msg(f"root.pack((), True): cached {ra} != fresh {rb}"))
                 cols, rows = ra
             if cols < 1 or rows < 1:
                 return False
@@ -911,7 +932,7 @@ class Run:
             self.trace.append(f"{ser}:mouse press {op[1]} at ({x},{y}) size {size}")
             ra, rb = self.both("mouse_event", lambda world: world.root.mouse_event(size, "mouse press", op[1], x, y, True))
             if bool(ra) != bool(rb):
-                raise Violation("rows-differ", self.msg(f"mouse_event returned {ra!r} (cached) != {rb!r} (fresh)"))
+                raise Violation("result-differs", self.msg(f"mouse_event returned {ra!r} (cached) != {rb!r} (fresh)"))
             _count("op:mouse-handled" if ra else "op:mouse-unhandled")
             return True
         if kind == "mut":
@@ -953,7 +974,6 @@ class Run:
 def check_hist(case):
     use_encoding(case["enc"])
     urwid.CanvasCache.clear()
-    gc_was = gc.isenabled()
     run = Run(case)
     try:
         with warnings.catch_warnings(record=True) as wlog:
@@ -977,8 +997,6 @@ def check_hist(case):
         if cc.__dict__["fetch"].__func__ is _no_fetch:
             cc.fetch, cc.store = run.uncached.saved
         urwid.CanvasCache.clear()
-        if gc_was:
-            gc.enable()
     if run.nt and _CTX is not None and _CTX.failure is None:
         _CTX.nontrivial(case)
         _CTX.count("nt:descendant-mutated-then-cached-view-rendered")
@@ -1097,9 +1115,58 @@ def _repair_edit_text_level():
     return undo
 
 
+def _repair_columns_hidden_pack():
+    """Columns.render(): when a column is hidden and widths are measured from the widgets ('pack'), the canvas
+    depends on every column (set_depends), not only on the rendered ones"""
+    cls = urwid.Columns
+    orig = cls.__dict__["render"]
+
+    def render(self, size, focus=False):
+        if canv := urwid.CanvasCache.fetch(self, cls, size, focus):
+            return canv
+        canv = orig.original_fn(self, size, focus)
+        if canv.widget_info or not isinstance(canv, urwid.CompositeCanvas):
+            canv = urwid.CompositeCanvas(canv)
+        widths = self.get_column_sizes(size, focus)[0]
+        shown = sum(1 for wd in widths if wd > 0)
+        if shown < len(self.contents) and any(o[0] == PACK for _w, o in self.contents):
+            canv.set_depends([w for w, _o in self.contents])
+        canv.finalize(self, size, focus)
+        urwid.CanvasCache.store(cls, canv)
+        return canv
+
+    render.original_fn = orig.original_fn
+    cls.render = render
+
+    def undo():
+        cls.render = orig
+
+    return undo
+
+
+def _repair_scrollable_adjust():
+    """Scrollable._adjust_trim_top(): a position changed while rendering invalidates the canvases cached before"""
+    orig = urwid.Scrollable._adjust_trim_top
+
+    def _adjust_trim_top(self, canv, size):
+        old = self._trim_top
+        orig(self, canv, size)
+        if self._trim_top != old:
+            self._invalidate()
+
+    urwid.Scrollable._adjust_trim_top = _adjust_trim_top
+
+    def undo():
+        urwid.Scrollable._adjust_trim_top = orig
+
+    return undo
+
+
 _REPAIRS = {
     "C06-listbox-valign-no-invalidate": _repair_valign,
     "C06-edit-focus-shift-cached-at-text-level": _repair_edit_text_level,
+    "C06-columns-hidden-pack-column-not-a-dependency": _repair_columns_hidden_pack,
+    "C06-scrollable-render-moves-position": _repair_scrollable_adjust,
 }
 
 
@@ -1111,7 +1178,7 @@ def _holds_with(case, repairs):
         check_hist(case)
         return True
     except Discard:
-        return False
+        return True  # no violation before the history turned out to be mis-built
     except Exception:  # noqa: BLE001
         return False
     finally:
@@ -1140,4 +1207,21 @@ KNOWN = {
     "C06-edit-focus-shift-cached-at-text-level": lambda sub, case, v: sub == "hist"
     and v.clause in _DIFF
     and _caused_by("C06-edit-focus-shift-cached-at-text-level", case),
+    # Columns.render() hides columns that do not fit; whether a 'pack' column fits depends on that widget's own
+    # content, but a hidden widget is not rendered and so is not among the canvas's dependencies: changing it
+    # (set_text ...) does not invalidate the Columns canvas
+    "C06-columns-hidden-pack-column-not-a-dependency": lambda sub, case, v: sub == "hist"
+    and v.clause in _DIFF
+    and _caused_by("C06-columns-hidden-pack-column-not-a-dependency", case),
+    # Scrollable.render() clamps/moves self._trim_top for the size at hand (a state change made while rendering)
+    # without invalidating: canvases cached earlier for other sizes keep showing the old position
+    "C06-scrollable-render-moves-position": lambda sub, case, v: sub == "hist"
+    and v.clause in _DIFF
+    and _caused_by("C06-scrollable-render-moves-position", case),
+    # a flow Columns whose only displayed columns are box columns (the flow/pack columns were pushed out to make
+    # room for the focus column): render() gives a 0-row canvas, rows() reports 1; rows() answered from the cached
+    # canvas therefore differs from rows() computed afresh.  Root cause is the render/rows disagreement (C01).
+    "C06-columns-zero-row-render-vs-rows": lambda sub, case, v: sub == "hist"
+    and v.clause == "rows-differ:render-disagrees-with-rows:Columns"
+    and "cached 0 != fresh 1" in v.message,
 }
